@@ -282,6 +282,10 @@ def plan_C15(c):
     uops = ['floor', 'ceil', 'trunc', 'fract', 'abs', 'nt_abs', 'neg', 'neg_ref', 'signum']
     oops = ['magnitude', 'eq_zero', 'eq_one', 'is_negative', 'is_positive', 'is_zero', 'is_one', 'nt_is_negative', 'nt_is_positive']
     g_operands(c, lambda x, i: [{'ev': 'un', 't': 1, 'op': op, 'x': x, 'n': 0} for op in uops] + [{'ev': 'obs', 't': 1, 'op': op, 'x': x} for op in oops])
+    # the constants the predicates are stated against
+    consts = [{'ev': 'const', 't': 1, 'name': n} for n in ['ZERO', 'ONE', 'NEG_ONE', 'TWO', 'TEN', 'MAX', 'MIN', 'DELTA', 'default', 'nt_zero', 'nt_one', 'MAX_N_FRAC_DIGITS']]
+    consts += [{'ev': 'intratio', 't': 1, 'ty': t, 'v': jnum(int_class(t, k))} for t in INT_TYPES9 for k in (1, 2, 7, 9)]
+    run_vectors(c, consts, 'consts')
     v(c, 'c15', 6000, 200000)
 
 
